@@ -215,3 +215,72 @@ def run_fabricate(prog, tier, repo):
                               f'input is silently accepted and reaches the checker/compiler as if it were written that way')
     res.floor('fabrication sites', n, 5)
     return [res]
+
+
+# ---------------------------------------------------------------------------------------------------------------------
+# LITERAL-SOURCE (C08): the printer writes an integer literal node as its decimal text and treats it as an atom (no
+# parentheses around it anywhere). That only round-trips if every integer literal node of the untyped tree is the image of one
+# lexer token: its value is the parse of the token text (or the constant of a reported placeholder). A literal computed by
+# the parser (e.g. a folded `-1`) has no token of its own; printed as an atom in `(-1).abs()` it re-parses as `-(1.abs())`.
+
+def run_literal_source(prog, tier, repo):
+    from ..cfg import single_def
+    res = RuleResult('LITERAL-SOURCE', 'C08: every integer literal node the parser builds carries the parsed text of one lexer token '
+                     '(or a constant placeholder), never a value the parser computed')
+    n = 0
+    for b in prog.bodies.values():
+        if b.crate != 'samlang_parser' or '::tests' in b.name:
+            continue
+        for bl in b.blocks:
+            if bl.cleanup:
+                continue
+            for st in bl.stmts:
+                if st[0] != 'a' or st[2][0] != 'agg' or st[2][1][0] != 'adt' or not st[2][1][1].endswith('source::Literal') \
+                        or st[2][1][3] != 'Int' or not st[2][2]:
+                    continue
+                n += 1
+                nb = sum(1 for i in res.instances if i.key.startswith(f'int-literal:{b.name}#')) + 1
+                key = f'int-literal:{b.name}#{nb}'
+                o = st[2][2][0]
+                ok = o[0] == 'k'
+                src = 'a constant'
+                if not ok and o[0] in ('c', 'm'):
+                    cur = o[1].local
+                    for _ in range(8):
+                        sd = single_def(b, cur)
+                        if not sd:
+                            src = 'an untraceable value'
+                            break
+                        if sd[1] == 'term':
+                            nm = (callee(sd[2])[1] or '')
+                            short = nm.split('::')[-1]
+                            if short in ('unwrap_or', 'unwrap', 'unwrap_or_default', 'expect') and sd[2][3]:
+                                r, _p = operand_root(b, sd[2][3][0])
+                                if r is None:
+                                    break
+                                cur = r
+                                continue
+                            if short == 'parse' or nm.endswith('FromStr>::from_str') or short == 'from_str':
+                                ok = True
+                                src = 'str::parse of the token text'
+                            else:
+                                src = f'the result of `{short}`'
+                            break
+                        rv = sd[2]
+                        if rv[0] == 'use' and rv[1][0] in ('c', 'm'):
+                            r, _p = operand_root(b, rv[1])
+                            if r is None or r == cur:
+                                src = 'a value read from another node'
+                                break
+                            cur = r
+                            continue
+                        src = f'a computed value ({rv[0]})'
+                        break
+                if ok:
+                    res.ok(key, b.loc(st[3]), f'value is {src}')
+                else:
+                    res.violation(key, b.loc(st[3]), f'{b.name} builds an integer literal node from {src}: such a literal corresponds to no '
+                                  f'single token, the printer emits it as an atom without parentheses, and e.g. `(-1).abs()` is '
+                                  f'formatted to `-1.abs()`, which parses as `-(1.abs())`')
+    res.floor('integer literal nodes built by the parser', n, 2)
+    return [res]
